@@ -12,17 +12,17 @@ MARK = "\n----------------------------------------------------------------------
 NOTES = {
  "C01": "as planned; the text layer (`print_int`) is covered by C07's `fmtFixed` model (precision 0 prints the integer) rather than by a separate theorem.",
  "C02": "as planned. `projectIter_eq` lives with C03. Cohort cases now include targets at the f64-overflow edge of C(t, m) (seed C02-B).",
- "C03": "as planned incl. the *ext* theorems `hyper_compose` / `project_project`; `project_marginalize_comm` is not proved (explored through C13 chains). Rejected targets now include, for every axis, a target larger there and smaller elsewhere (seed C03-B).",
- "C04": "as planned; `create_marginalize` is not a separate theorem (it follows from C01 `run_eq_spec` + `marginalize_eq_spec`; explored through the CLI).",
+ "C03": "as planned incl. all *ext* theorems: `hyper_compose` / `project_project` and `project_marginalize_comm` (`Props/C03X.lean`: projecting all axes then summing some out = summing them out then projecting the rest). Rejected targets now include, for every axis, a target larger there and smaller elsewhere (seed C03-B).",
+ "C04": "as planned; the create/marginalize relation is proved in the form `marginal_is_spectrum` / `marginal_counts` (`Props/C04X.lean`): the marginal of the spectrum of a site list is the spectrum of the sites with the removed populations ignored (with `C06.create_is_spectrum` this is the `create` statement for data complete on all selected samples).",
  "C05": "as planned (`fill_table` is checked by the CLI fill cases of C17/C05 rather than as a theorem).",
- "C06": "model `Model/Stat.lean` (all 14 statistics, generic scalar, D statistics as (numerator, variance) pairs), specification `Spec/Stat.lean` (genotype-level and published formulas). All planned theorems incl. the three 'published' ones are proved; `linear_stat` is the key lemma. The driver evaluates the *specification* (not the model) for genotype-level cases, so model = spec is also exercised at run time.",
+ "C06": "plus `Props/C06E.lean` (counts below 2^53 survive the precision-0 text pipe between `create` and `stat` bit for bit) and the `statCli` model of the option surface (header row written before the statistics are computed, one precision for all or one each, otherwise a usage error). Model `Model/Stat.lean` (all 14 statistics, generic scalar, D statistics as (numerator, variance) pairs), specification `Spec/Stat.lean` (genotype-level and published formulas). All planned theorems incl. the three 'published' ones are proved; `linear_stat` is the key lemma. The driver evaluates the *specification* (not the model) for genotype-level cases, so model = spec is also exercised at run time.",
  "C07": "as planned, split into `Props/C07Npy.lean` / `Props/C07Text.lean`. `text_value_roundtrip` is proved for all precisions (the model's magnitude guards at ±400 decimal digits are shown harmless). `text_npy_text` (15 significant digits) stays correspondence-only: the driver checks the clause on the model for every generated case.",
  "C08": "as planned; generator now covers every ordered combination of genotype classes over three selected columns (seed C08-B).",
  "C09": "as planned except `label_perm_transposes` (no separate transposition theorem: the model recomputes ids and the correspondence compares).",
  "C10": "as planned; fault streams now place a ploidy error before/after a skipped sample of the same record (seed C10-B).",
  "C11": "as planned; eight site kinds instead of six (two 'every selected sample uncalled' kinds added after seed C11-A).",
  "C12": "partial, as planned. Proved: `detect_magic`, `prefix_schedule_free`, `pipeline_factors` / `containers_agree` (codecs as a parameter structure) and, without assuming an encoder exists, `pipeline_factors_decoded` / `same_calls_same_output` with a non-vacuity example. Call sets with repeated samples were added (seed C12-B).",
- "C13": "as planned.",
+ "C13": "as planned; text output at precision p is now compared too (`c13.viewtext`).",
  "C14": "all planned theorems incl. the *ext* ones: one lemma `sf_fold_weighted` (a mirror-symmetric weighted sum is fold-invariant) carries the twelve fold theorems; `f3_from_f2` / `f4_from_f2` go through `marginalize_eq_spec`. Several hypotheses turned out unnecessary (field semantics x/0 = 0); they are kept because they delimit where the binary64 code returns finite values.",
  "C15": "as planned, split into `C15Write` / `C15Grammar` / `C15Read`. The grammar theorem covers a parameterised spelling family (quote style, four spacing parameters, key order via `List.Perm`, two optional trailing commas). numpy (python3-vt) is used both ways: it loads sfs-written files, and sfs reads numpy-written files with numpy's own `astype('<f8')` as third opinion.",
  "C16": "as planned, split into `C16Damage` / `C16Sound`; plus `overflow_behind_zero_is_none` for defect F21 found by this check.",
